@@ -64,10 +64,16 @@ ONLY VALIDATED (differential check `harness/xsmverif/c12.py`, every cut point of
   snapshot of a never-started interpreter.
 
 OUTSIDE THE MODEL: machine output, the error object, child actors and the systemId registry (`snap`
-writes `null`, `null`, `{}`, `{}`), non-integer context values, pending timers / in-flight services
-(excepted by the property), `start()` on a restored interpreter (identity: `resume`), and the code's
-behaviour on wrongly shaped snapshots (raw exceptions / silent acceptance, finding F43): `restore`
-refuses them (`RErr.shape`).
+writes `null`, `null`, `{}`, `{}`; of `actors` / `system` in a snapshot handed to `restore` only the shape
+check of `_validate_snapshot_shape` is modelled: a well-shaped value is accepted and ignored), non-integer
+context values, pending timers / in-flight services (excepted by the property), `start()` on a restored
+interpreter (identity: `resume`).
+
+Wrongly shaped snapshot objects (finding F43, repaired): `shapeErr` is `_validate_snapshot_shape`, run on
+the decoded object before anything is rebuilt; `restore` reports the first offending key (`RErr.shape`,
+`InvalidConfigError` in the code) — `restore_shape_first`, the `restore_rejects_shape_*` family — and after
+a passed validation only an unknown state id can fail (`restore_wellshaped_outcome`). Ids in `history`
+that name no state are dropped, as the code drops them (`restoreHistEntry`).
 -/
 namespace XSM.C12
 open XSM XSM.Spec XSM.Hist XSM.Snap
@@ -157,17 +163,55 @@ theorem restore_rejects_nonobject (m : Machine) (j : J) (h : ∀ kvs, j ≠ .obj
   · rename_i kvs; exact absurd rfl (h kvs)
   · exact ⟨_, rfl⟩
 
-/-- a snapshot whose configuration names a state the machine does not have: `StateNotFoundError`,
-    carrying the first such id (status/context well-typed, so that the code gets that far) -/
-theorem restore_rejects_unknown_state (m : Machine) (kvs : List (String × J)) (c : List (String × J))
-    (st : String) (ids : List String)
-    (hc : (J.obj kvs).get? "context" = some (.obj c)) (hst : (J.obj kvs).get? "status" = some (.str st))
+/-- a well-shaped snapshot whose configuration names a state the machine does not have:
+    `StateNotFoundError`, carrying the first such id (the shape of every key is checked before: a snapshot
+    that is ALSO wrongly shaped gets `InvalidConfigError`, `restore_shape_first`) -/
+theorem restore_rejects_unknown_state (m : Machine) (kvs : List (String × J)) (ids : List String)
+    (hshape : shapeErr (.obj kvs) = none)
     (hids : restoreIdsJ (.obj kvs) = .ok ids) (hbad : ∃ id ∈ ids, stateById m id = none) :
     ∃ id ∈ ids, stateById m id = none ∧ restore m (.obj kvs) = .error (.stateNotFound id) := by
   obtain ⟨id, hid, hn, he⟩ := restoreIds_unknown m ids hbad
   refine ⟨id, hid, hn, ?_⟩
-  unfold restore restoreWith
-  simp only [hc, hst, hids, he]
+  rcases restoreWith_wellshaped m (sortDI m) kvs hshape with ⟨s, hs⟩ | ⟨ids', id', hids', _, _, hr⟩
+  · obtain ⟨_, _, _, ⟨ids', ps, h4, h5, _⟩, _⟩ := Snap.restore_ok_inv m _ s hs
+    rw [hids] at h4
+    cases h4
+    rw [he] at h5
+    cases h5
+  · obtain ⟨h1, h2, _⟩ := shapeErr_none _ hshape
+    obtain ⟨v1, hv1, _, hc1⟩ := shapeRowOk_required h1
+    obtain ⟨v2, hv2, _, hc2⟩ := shapeRowOk_required h2
+    cases v1 <;> simp [isStr] at hc1
+    cases v2 <;> simp [isObj] at hc2
+    unfold restore
+    rw [restoreWith_obj, hshape]
+    simp only [restoreCore, hv1, hv2, hids, he]
+
+/-- **the validation comes first**: a snapshot object with a wrongly shaped key is refused with the first
+    offending key of `status`, `context`, `configuration`, `state_ids`, `history`, `actors`, `system`
+    (`InvalidConfigError`), whatever else is wrong with it — unknown state ids included -/
+theorem restore_shape_first (m : Machine) (kvs : List (String × J)) (e : RErr)
+    (h : shapeErr (.obj kvs) = some e) : restore m (.obj kvs) = .error e :=
+  restoreWith_shape_first m (sortDI m) kvs e h
+
+/-- the errors of the validation are `shape` errors of exactly these seven keys -/
+theorem shapeErr_keys (j : J) (e : RErr) (h : shapeErr j = some e) :
+    ∃ k ∈ ["status", "context", "configuration", "state_ids", "history", "actors", "system"], e = .shape k := by
+  unfold shapeErr at h
+  repeat' split at h
+  all_goals first | (cases h; exact ⟨_, by simp, rfl⟩) | cases h
+
+/-- **after a passed validation only an unknown state id can fail**: the snapshot is accepted, or one of
+    the ids it lists names no state of the machine and `StateNotFoundError` carries such an id -/
+theorem restore_wellshaped_outcome (m : Machine) (kvs : List (String × J)) (h : shapeErr (.obj kvs) = none) :
+    (∃ s, restore m (.obj kvs) = .ok s) ∨
+    ∃ ids id, restoreIdsJ (.obj kvs) = .ok ids ∧ id ∈ ids ∧ stateById m id = none ∧
+      restore m (.obj kvs) = .error (.stateNotFound id) :=
+  restoreWith_wellshaped m (sortDI m) kvs h
+
+/-- an accepted snapshot passed the validation: every row of the table holds -/
+theorem restore_ok_shape (m : Machine) (j : J) (s : St) (h : restore m j = .ok s) : shapeErr j = none :=
+  restoreWith_ok_shape m (sortDI m) j s h
 
 /-- wrongly typed or missing `status` / `context`: never accepted -/
 theorem restore_rejects_shape_status (m : Machine) (j : J) (h : ∀ st, j.get? "status" ≠ some (.str st)) :
@@ -191,6 +235,60 @@ theorem restore_rejects_shape_history (m : Machine) (j : J) (h : ∀ hh, restore
     ∀ s, restore m j ≠ .ok s := by
   intro s hs
   exact h _ (restore_ok_inv m j s hs).2.2.2.2.1
+
+/-- a `state_ids` that is present, not `null` and not a list of strings is never accepted — also when
+    `configuration` is there to be used instead -/
+theorem restore_rejects_shape_state_ids (m : Machine) (j : J) (v : J) (hv : j.get? "state_ids" = some v)
+    (hn : v ≠ .null) (hbad : isIds v = false) : ∀ s, restore m j ≠ .ok s := by
+  intro s hs
+  refine shapeErr_of_row (j := j) (key := "state_ids") (req := stateIdsRequired j) (check := isIds) ?_
+    (by simp) (restore_ok_shape m j s hs)
+  unfold shapeRowOk
+  rw [hv]
+  cases v <;> simp_all
+
+/-- an `actors` that is present, not `null` and not an object of actor records (objects whose `snapshot`
+    is an object and whose `src` is absent, `null` or a string — what `from_snapshot` reads of a record)
+    is never accepted -/
+theorem restore_rejects_shape_actors (m : Machine) (j : J) (v : J) (hv : j.get? "actors" = some v)
+    (hn : v ≠ .null) (hbad : isMapOf isActorRec v = false) : ∀ s, restore m j ≠ .ok s := by
+  intro s hs
+  refine shapeErr_of_row (j := j) (key := "actors") (req := false) (check := isMapOf isActorRec) ?_
+    (by simp) (restore_ok_shape m j s hs)
+  unfold shapeRowOk
+  rw [hv]
+  cases v <;> simp_all
+
+/-- a `system` that is present, not `null` and not an object of strings (systemId -> actor id) is never
+    accepted -/
+theorem restore_rejects_shape_system (m : Machine) (j : J) (v : J) (hv : j.get? "system" = some v)
+    (hn : v ≠ .null) (hbad : isMapOf isStr v = false) : ∀ s, restore m j ≠ .ok s := by
+  intro s hs
+  refine shapeErr_of_row (j := j) (key := "system") (req := false) (check := isMapOf isStr) ?_
+    (by simp) (restore_ok_shape m j s hs)
+  unfold shapeRowOk
+  rw [hv]
+  cases v <;> simp_all
+
+/-- … and the error is the library's `InvalidConfigError` naming the key, when the keys checked before
+    (`status` … `history`, resp. … `actors`) are well-shaped -/
+theorem restore_shape_error_actors (m : Machine) (kvs : List (String × J))
+    (h1 : shapeRowOk (.obj kvs) "status" true isStr = true) (h2 : shapeRowOk (.obj kvs) "context" true isObj = true)
+    (h3 : shapeRowOk (.obj kvs) "configuration" false isIds = true)
+    (h4 : shapeRowOk (.obj kvs) "state_ids" (stateIdsRequired (.obj kvs)) isIds = true)
+    (h5 : shapeRowOk (.obj kvs) "history" false (isMapOf isIds) = true)
+    (h6 : shapeRowOk (.obj kvs) "actors" false (isMapOf isActorRec) = false) :
+    restore m (.obj kvs) = .error (.shape "actors") :=
+  restore_shape_first m kvs _ (by simp [shapeErr, h1, h2, h3, h4, h5, h6])
+theorem restore_shape_error_system (m : Machine) (kvs : List (String × J))
+    (h1 : shapeRowOk (.obj kvs) "status" true isStr = true) (h2 : shapeRowOk (.obj kvs) "context" true isObj = true)
+    (h3 : shapeRowOk (.obj kvs) "configuration" false isIds = true)
+    (h4 : shapeRowOk (.obj kvs) "state_ids" (stateIdsRequired (.obj kvs)) isIds = true)
+    (h5 : shapeRowOk (.obj kvs) "history" false (isMapOf isIds) = true)
+    (h6 : shapeRowOk (.obj kvs) "actors" false (isMapOf isActorRec) = true)
+    (h7 : shapeRowOk (.obj kvs) "system" false (isMapOf isStr) = false) :
+    restore m (.obj kvs) = .error (.shape "system") :=
+  restore_shape_first m kvs _ (by simp [shapeErr, h1, h2, h3, h4, h5, h6, h7])
 
 /-- everything an accepted snapshot went through: it is an object, `context` is an object, `status` a
     string, the listed ids are strings that all name states, the history is well-shaped; the state
